@@ -190,6 +190,9 @@ def run(chk):
                 txt = show(a)
                 # the collection itself (`&data.comments`): no filter / skip / take adaptor between it and the loop;
                 # `data` may be the payload of get_sauce(), so calls are allowed only below the field access
+                m_it = re.fullmatch(r"iter\((?:&\*deref\()?(&.*\.comments)\)?\)", txt)
+                if m_it:
+                    txt = m_it.group(1)          # `data.comments.iter()` is the same traversal as `&data.comments`
                 if txt.endswith(".comments") and txt.startswith("&") and not any(w in txt for w in ("filter", "skip", "take", "step_by", "chain", "rev(")):
                     # and the loop's `next` is slice::Iter::next (not an adaptor's)
                     it_ok = all((tt["callee"].get("resolved") or "").startswith("<std::slice::Iter<") for tt in nxt)
@@ -248,13 +251,31 @@ def run(chk):
         chk.finding("write_sauce_info|appended|%s|per-comment %s" % (sorted(final_norm), per_iter), rule="R-SAUCE-AFFINE", where="%s:%s" % (wb.file, wb.line), fn="write_sauce_info",
                     what="the writer appends %s bytes (+ %s per comment line) after the content; the reader cuts 129 bytes without comments and 134 + 64 n with n comment lines" % (sorted(final_norm), per_iter))
     # the count byte = comments.len()
-    cl = [l for l in range(len(wb.locals)) if wb.lname(l) == "comment_len"]
+    # the count byte: the u8 local that receives `comments.len() as u8`
+    cl = []
+    for bi, k, s_ in wb.stmts():
+        if s_["k"] == "assign" and not s_["p"].get("p"):
+            v = show(web.rvalue(s_["rv"]))
+            if v.startswith("(len(&") and v.endswith(".comments) as u8)") and s_["p"]["l"] not in cl:
+                cl.append(s_["p"]["l"])
     okc = False
-    if cl:
+    if len(cl) == 1:
         vals = []
         for bi, k in wb.defs.get(cl[0], []):
             if k != "term":
                 vals.append(show(web.rvalue(wb.blocks[bi]["stmts"][k]["rv"])))
+        # ... and it is what gets pushed
+        pushed = any((t["callee"].get("resolved") or "").endswith("Vec::<T, A>::push") and on_vec(t["args"][0]) and
+                     (t["args"][1].get("copy") or t["args"][1].get("move") or {}).get("l") == cl[0] for _, t in wb.calls())
+        if not pushed:
+            # pushed through a copy temp
+            for _, t in wb.calls():
+                if (t["callee"].get("resolved") or "").endswith("Vec::<T, A>::push") and on_vec(t["args"][0]):
+                    e = web.operand(t["args"][1])
+                    if e[0] == "var" and e[1] == cl[0]:
+                        pushed = True
+        if not pushed:
+            vals.append("<not pushed>")
         okc = len(vals) == 2 and "0" in vals and any(v.startswith("(len(&") and v.endswith(".comments) as u8)") for v in vals)
         chk.sample("comment count byte: %s" % vals)
     chk.obligation(okc)
@@ -336,9 +357,25 @@ def run(chk):
                         what="sauce_header_len is not {129, 134 + 64 * num_comments}: %s" % sorted(norm, key=str))
     # ================================================================== R-SAUCE-CUT
     leb = ExprBuilder(lb)
-    lens = [l for l in range(len(lb.locals)) if lb.lname(l) == "len"]
-    if chk.anchor(len(lens) == 1, "R-SAUCE-CUT", "Buffer::from_bytes has one local named `len`"):
+    # the content length: the local that ends the RangeTo handed to the loaders
+    lens = []
+    for bi, t in lb.calls():
+        if "load_buffer" in (t["callee"].get("resolved") or t["callee"].get("path") or ""):
+            for a in t["args"]:
+                e = leb.operand(a)
+                x = e
+                while x[0] in ("ref", "deref"):
+                    x = x[1]
+                if x[0] == "call" and x[1].endswith("::index") and len(x[2]) == 2 and x[2][1][0] == "agg" if False else False:
+                    pass
+            m = re.search(r"RangeTo\{(\w+)\}", show(leb.call_expr(t)))
+            if m:
+                for l in range(len(lb.locals)):
+                    if lb.lname(l) == m.group(1) and l not in lens:
+                        lens.append(l)
+    if chk.anchor(len(lens) == 1, "R-SAUCE-CUT", "Buffer::from_bytes hands the loaders &bytes[..<one local>]"):
         l = lens[0]
+        lname = lb.lname(l)
         shapes = []
         for bi, k in lb.defs.get(l, []):
             if k == "term":
@@ -348,13 +385,10 @@ def run(chk):
         chk.sample("definitions of `len` in from_bytes: %s" % shapes)
         for s_ in shapes:
             s2 = s_.replace(" ", "")
-            ok = s2 in ("len(&*bytes)", "len(bytes)") or re.fullmatch(r"\(?len-\(?\*?\(?.*sauce_header_len\)?\)?", s2) is not None \
-                or re.fullmatch(r"\(len-.*\.sauce_header_len\)", s2) is not None
-            # the checked subtraction writes a tuple first: `len = move _x.0` with _x = SubO(len, hdr)
-            if not ok and re.fullmatch(r"\(len-.*sauce_header_len.*\)", s2):
-                ok = True
-            if not ok and re.fullmatch(r"saturating_sub\(len,.*sauce_header_len\)", s2):
-                ok = True
+            n_ = re.escape(lname)
+            ok = re.fullmatch(r"len\(&?\*?\w+\)", s2) is not None \
+                or re.fullmatch(r"\(%s-.*sauce_header_len.*\)" % n_, s2) is not None \
+                or re.fullmatch(r"saturating_sub\(%s,.*sauce_header_len\)" % n_, s2) is not None
             chk.obligation(ok)
             if not ok:
                 chk.finding("from_bytes|len-def|%s" % s_[:60], rule="R-SAUCE-CUT", where="%s:%s" % (lb.file, lb.line), fn="Buffer::from_bytes",
@@ -366,7 +400,7 @@ def run(chk):
             e = show(leb.call_expr(t))
             if "load_buffer" in e:
                 nslice += 1
-                ok = "RangeTo{len}" in e
+                ok = ("RangeTo{%s}" % lname) in e
                 chk.obligation(ok)
                 if not ok:
                     chk.finding("from_bytes|loader-arg|%s" % e[:60], rule="R-SAUCE-CUT", where="%s:%s" % (lb.file, t["line"]), fn="Buffer::from_bytes",
